@@ -48,7 +48,13 @@ def gen_case(rng, params):
             ops.append(f"wr:{hx(g.rbytes(rng, rng.randint(0, 10), walpha))}:{rng.choice('001')}")
         elif k < 0.75:
             n = rng.choice([0, 1, 3, 8, 8, params['sendSliceSize'] - 1, params['sendSliceSize'], params['sendSliceSize'] + 5, 1100])
-            ops.append(f"send:{hx(g.rbytes(rng, n, walpha if n < 20 else b'abx\r\n'))}:{rng.choice('0001')}:{t}:{rng.choice('001')}")
+            if rng.random() < 0.15:
+                # text whose UTF-8 form is longer than its number of characters, sized around the slice boundary
+                ch_ = rng.choice(["\xe4", "\u20ac", "\U0001f600"])
+                payload = (ch_ * rng.choice([1, 2, 128, 171, 256, 257, 300])).encode() + g.rbytes(rng, rng.choice([0, 0, 1, 2]), b"ab")
+                ops.append(f"send:{hx(payload)}:0:{t}:{rng.choice('001')}")
+            else:
+                ops.append(f"send:{hx(g.rbytes(rng, n, walpha if n < 20 else b'abx\r\n'))}:{rng.choice('0001')}:{t}:{rng.choice('001')}")
         elif k < 0.82:
             ops.append(f"sl:{hx(g.rbytes(rng, rng.randint(0, 8), walpha))}:{rng.choice('0001')}:{t}")
         elif k < 0.87:
